@@ -8,7 +8,16 @@ import (
 	"verifharness/internal/vkit"
 )
 
-func main() { vkit.Main("C19", []string{"Gen.R1"}, runC19) }
+func main() { vkit.Main("C19", []string{"Gen.R1", "Gen.S1", "Gen.R2", "Gen.S2Rect", "Gen.S2Cap"}, runC19) }
+
+// floats as strings: JSON has no Inf/NaN
+func fs(xs ...float64) []string {
+	out := make([]string, len(xs))
+	for i, x := range xs {
+		out[i] = fmt.Sprintf("%g", x)
+	}
+	return out
+}
 
 func r1Term(i r1.Interval) string { return vkit.App("mk_r1_Interval", vkit.F(i.Lo), vkit.F(i.Hi)) }
 
@@ -30,6 +39,10 @@ func r1Lattice(rng *vkit.Rng) []float64 {
 
 func runC19(c *vkit.Collector, rng *vkit.Rng, budget int) {
 	runC19r1(c, rng, budget)
+	runC19s1(c, rng, budget)
+	runC19r2(c, rng, budget)
+	runC19s2rect(c, rng, budget)
+	runC19cap(c, rng, budget)
 }
 
 func runC19r1(c *vkit.Collector, rng *vkit.Rng, budget int) {
@@ -56,14 +69,14 @@ func runC19r1(c *vkit.Collector, rng *vkit.Rng, budget int) {
 			return r1.Interval{Lo: a, Hi: b}
 		}
 	}
-	n := 250 * budget
+	n := 90 * budget
 	for k := 0; k < n; k++ {
 		a, b := pick(), pick()
 		key := fmt.Sprintf("%x/%x/%x/%x", math.Float64bits(a.Lo), math.Float64bits(a.Hi), math.Float64bits(b.Lo), math.Float64bits(b.Hi))
 		c.Eval("r1:"+key, !(a.IsEmpty() && b.IsEmpty()))
 		A, Bt := r1Term(a), r1Term(b)
 		u, x := a.Union(b), a.Intersection(b)
-		c.Sample(map[string]interface{}{"type": "r1", "a": []float64{a.Lo, a.Hi}, "b": []float64{b.Lo, b.Hi}, "union": fmt.Sprint(u), "intersection": fmt.Sprint(x)})
+		c.Sample(map[string]interface{}{"type": "r1", "a": fs(a.Lo, a.Hi), "b": fs(b.Lo, b.Hi), "union": fmt.Sprint(u), "intersection": fmt.Sprint(x)})
 		// [T] every function of the pair, bit-exactly
 		c.Check("r1.Union "+key, vkit.App("r1_Interval_eqbits", vkit.App("r1_Interval_Union", A, Bt), r1Term(u)))
 		c.Check("r1.Intersection "+key, vkit.App("r1_Interval_eqbits", vkit.App("r1_Interval_Intersection", A, Bt), r1Term(x)))
@@ -80,12 +93,13 @@ func runC19r1(c *vkit.Collector, rng *vkit.Rng, budget int) {
 		}
 		probes = append(probes, rng.Pick(lat))
 		anyCommon := false
-		for _, p := range probes {
+		tProbe := map[int]bool{rng.Intn(len(probes)): true, rng.Intn(len(probes)): true, rng.Intn(len(probes)): true}
+		for pi, p := range probes {
 			if math.IsNaN(p) {
 				continue
 			}
 			ma, mb := r1Mem(a, p), r1Mem(b, p)
-			rep := map[string]interface{}{"type": "r1", "a": []float64{a.Lo, a.Hi}, "b": []float64{b.Lo, b.Hi}, "p": p,
+			rep := map[string]interface{}{"type": "r1", "a": fs(a.Lo, a.Hi), "b": fs(b.Lo, b.Hi), "p": fs(p),
 				"bits": []string{fmt.Sprintf("%x", math.Float64bits(a.Lo)), fmt.Sprintf("%x", math.Float64bits(a.Hi)), fmt.Sprintf("%x", math.Float64bits(b.Lo)), fmt.Sprintf("%x", math.Float64bits(b.Hi)), fmt.Sprintf("%x", math.Float64bits(p))}}
 			if (ma || mb) && !r1Mem(u, p) {
 				c.Violate("r1.Union", "union misses a point of an operand", rep)
@@ -111,14 +125,18 @@ func runC19r1(c *vkit.Collector, rng *vkit.Rng, budget int) {
 					c.Violate("r1.AddPoint", "AddPoint loses an original point", rep)
 				}
 			}
-			c.Check(fmt.Sprintf("r1.AddPoint %s %x", key, math.Float64bits(p)), vkit.App("r1_Interval_eqbits", vkit.App("r1_Interval_AddPoint", A, vkit.F(p)), r1Term(ap)))
-			c.Check(fmt.Sprintf("r1.Contains %s %x", key, math.Float64bits(p)), vkit.App("Bool.eqb", vkit.App("r1_Interval_Contains", A, vkit.F(p)), vkit.B(a.Contains(p))))
+			if tProbe[pi] {
+				c.Check(fmt.Sprintf("r1.AddPoint %s %x", key, math.Float64bits(p)), vkit.App("r1_Interval_eqbits", vkit.App("r1_Interval_AddPoint", A, vkit.F(p)), r1Term(ap)))
+				c.Check(fmt.Sprintf("r1.Contains %s %x", key, math.Float64bits(p)), vkit.App("Bool.eqb", vkit.App("r1_Interval_Contains", A, vkit.F(p)), vkit.B(a.Contains(p))))
+			}
 			if !a.IsEmpty() {
 				cp := a.ClampPoint(p)
 				if !r1Mem(a, cp) {
 					c.Violate("r1.ClampPoint", "ClampPoint lands outside a non-empty interval", rep)
 				}
-				c.Check(fmt.Sprintf("r1.ClampPoint %s %x", key, math.Float64bits(p)), vkit.App("fbiteq", vkit.App("r1_Interval_ClampPoint", A, vkit.F(p)), vkit.F(cp)))
+				if tProbe[pi] {
+					c.Check(fmt.Sprintf("r1.ClampPoint %s %x", key, math.Float64bits(p)), vkit.App("fbiteq", vkit.App("r1_Interval_ClampPoint", A, vkit.F(p)), vkit.F(cp)))
+				}
 			}
 			for _, m := range []float64{0, 1e-16, 0.25, 1e300} {
 				if !math.IsInf(a.Lo, 0) && !math.IsInf(a.Hi, 0) {
@@ -131,14 +149,14 @@ func runC19r1(c *vkit.Collector, rng *vkit.Rng, budget int) {
 		}
 		if a.Intersects(b) != anyCommon && !(a.IsEmpty() || b.IsEmpty()) {
 			// endpoints of both intervals are among the probes, so a common point, if any, was probed
-			c.Violate("r1.Intersects", "Intersects disagrees with existence of a common point", map[string]interface{}{"type": "r1", "a": []float64{a.Lo, a.Hi}, "b": []float64{b.Lo, b.Hi}})
+			c.Violate("r1.Intersects", "Intersects disagrees with existence of a common point", map[string]interface{}{"type": "r1", "a": fs(a.Lo, a.Hi), "b": fs(b.Lo, b.Hi)})
 		}
 		if (a.IsEmpty() || b.IsEmpty()) && a.Intersects(b) {
-			c.Violate("r1.Intersects", "Intersects true with an empty operand", map[string]interface{}{"type": "r1", "a": []float64{a.Lo, a.Hi}, "b": []float64{b.Lo, b.Hi}})
+			c.Violate("r1.Intersects", "Intersects true with an empty operand", map[string]interface{}{"type": "r1", "a": fs(a.Lo, a.Hi), "b": fs(b.Lo, b.Hi)})
 		}
 		// ContainsInterval complete: if every point of b (its endpoints suffice) is in a, it must say true
 		if !b.IsEmpty() && r1Mem(a, b.Lo) && r1Mem(a, b.Hi) && !a.ContainsInterval(b) {
-			c.Violate("r1.ContainsInterval", "ContainsInterval false although b lies in a", map[string]interface{}{"type": "r1", "a": []float64{a.Lo, a.Hi}, "b": []float64{b.Lo, b.Hi}})
+			c.Violate("r1.ContainsInterval", "ContainsInterval false although b lies in a", map[string]interface{}{"type": "r1", "a": fs(a.Lo, a.Hi), "b": fs(b.Lo, b.Hi)})
 		}
 		m := rng.Pick([]float64{0, 1e-16, 0.25, 1, 1e300, -0.25})
 		c.Check("r1.Expanded "+key, vkit.App("r1_Interval_eqbits", vkit.App("r1_Interval_Expanded", A, vkit.F(m)), r1Term(a.Expanded(m))))
